@@ -58,7 +58,7 @@ class InstantiatedClass(parser.Class):
         # Instantiate all instance methods
         self.methods = self.instantiate_methods(typenames)
         
-        self.dunder_methods = original.dunder_methods
+        self.dunder_methods = self.instantiate_dunder_methods(typenames)
 
         super().__init__(
             self.template,
@@ -190,6 +190,30 @@ class InstantiatedClass(parser.Class):
                     parent=self,
                 ))
         return instantiated_operators
+
+    def instantiate_dunder_methods(self, typenames):
+        """
+        Instantiate the class-level template in the dunder methods' arguments.
+
+        Args:
+            typenames: List of template types to instantiate.
+
+        Return: List of dunder methods instantiated with provided template args.
+        """
+        instantiated_dunder_methods = []
+        for dunder_method in self.original.dunder_methods:
+            instantiated_args = instantiate_args_list(
+                dunder_method.args.list(),
+                typenames,
+                self.instantiations,
+                self.cpp_typename(),
+            )
+            instantiated_dunder_methods.append(
+                parser.DunderMethod(
+                    name=dunder_method.name,
+                    args=parser.ArgumentList(instantiated_args),
+                ))
+        return instantiated_dunder_methods
 
     def instantiate_properties(self, typenames):
         """
